@@ -35,7 +35,10 @@ fn run_one(c: &Case, p: &StiffProb, xend: f64, rtol: f64, atol: f64) -> Result<S
     instr.dir = p.dir;
     instr.use_jac = c.analytic_jac;
     instr.budget = 5_000_000;
-    match solve(&instr, p.x0, xend, &p.y0(), &RunOpts::basic(c.method, rtol, atol)) {
+    // dense output on: the stored steps are the record of what was really integrated (see short_of_xend)
+    let mut o = RunOpts::basic(c.method, rtol, atol);
+    o.dense = true;
+    match solve(&instr, p.x0, xend, &p.y0(), &o) {
         RunResult::Ok(s) => Ok(s),
         other => Err(other.describe()),
     }
@@ -46,6 +49,15 @@ fn short_of_xend(s: &Solution, x0: f64, xend: f64) -> Option<String> {
     let tl = *s.t.last()?;
     if s.status == Status::Success && (tl - xend).abs() > 8.0 * tau(x0, xend, tl) {
         return Some(format!("Success reported but the last sample is {:e}, not xend = {:e} ({} accepted steps)", tl, xend, s.naccpt));
+    }
+    // every solver reports xend itself on its landing step; a stepper that treats a shortened retry step as the landing
+    // step would label that step's state xend -- the steps stored for the dense output then end short of it
+    if s.status == Status::Success && s.naccpt > 0 {
+        if let Some((_, b)) = s.sol_span() {
+            if (b - xend).abs() > 8.0 * tau(x0, xend, xend) {
+                return Some(format!("Success reported with the last sample at xend = {:e}, but the stored steps end at {:e}: the interval was not covered ({} accepted steps)", xend, b, s.naccpt));
+            }
+        }
     }
     None
 }
